@@ -97,7 +97,7 @@ def run_shard(spec, seed, tier, active):
     ci = CLASSES[spec["cls"]]
     dom = gen.Dom(ci)
     acc = Acc()
-    n = 45 if tier == "quick" else 300
+    n = 100 if tier == "quick" else 500
     max_steps = 35 if tier == "quick" else 50
 
     def one(data):
